@@ -235,7 +235,17 @@ def mutate(rng, hdr):
 
 def gen_decode_first(rng, hdr):
     L = len(hdr)
-    h = [f'dec {L} {pw.hx(hdr)}', 'show', 'getfmt', 'tostring', f'enc {L + rng.choice([0, 0, 3])}', 'validate']
+    h = []
+    # half of the decodes go into a structure that was used before (stale bytes, an initialised header of another format,
+    # a previous decode of another kind of header): the decoded structure must be a function of the bytes alone
+    k = rng.below(8)
+    if k == 0:
+        h = [rand_prior(rng)]
+    elif k == 1:
+        h = [f'init 48000 {rng.range(1, 2)} {rng.below(3)}', f'frames {rng.below(500)}']
+    elif k in (2, 3):
+        other = rng.choice(valid_headers(rng)); h = [f'dec {len(other)} {pw.hx(other)}']
+    h += [f'dec {L} {pw.hx(hdr)}', 'show', 'getfmt', 'tostring', f'enc {L + rng.choice([0, 0, 3])}', 'validate']
     if rng.chance(1, 2):
         h += [f'decbuf {L}', 'show']
     return h
